@@ -16,17 +16,18 @@ def TOKEN_OK(p, strict):
     t = TOK(p)
     return ("(allocated({t}) and {t}.g_path == {p} and "
             "(({t}.g_empty and (not {t}.g_issued) and {time} <= self.global_time) or "
-            " ((not {t}.g_empty) and {t}.g_issued and (not {t}.g_consumed) and {t}.g_due == {time} and "
+            " ((not {t}.g_empty) and {t}.g_live and {t}.g_issued and (not {t}.g_consumed) and {t}.g_due == {time} and "
             "  {t}.g_dt == {t}.g_due - {t}.g_start and {time} {op} self.global_time and {time} <= end_time)))"
             ).format(t=t, p=p, time=TIME(p), op='>' if strict else '>=')
 
-LEDGER = "forall(lambda d: implies(d.g_issued and d.g_consumed, d.g_at == d.g_due))"
+LEDGER = "forall(lambda d: implies(allocated(d) and d.g_issued and d.g_consumed, d.g_at == d.g_due))"
 NO_PENDING = "forall(lambda p: implies(has(self.front, p), (not %s) and %s <= self.global_time))" % (PEND('p'), TIME('p'))
 EMITS_SORTED = ("forall_range(1, len(self.g_emits), lambda i: self.g_emits[i - 1] <= self.g_emits[i] and "
                 "implies(self.emit_step == 1, self.g_emits[i - 1] < self.g_emits[i]))")
 EMITS_PAST = "len(self.g_emits) == 0 or self.g_emits[len(self.g_emits) - 1] <= self.global_time"
 
 OUTER = [
+    'self.g_views_valid',
     'self.global_time <= end_time',
     'implies(force_complete, self.global_time < end_time)',
     'self.global_time >= old(self.global_time)',
@@ -42,6 +43,7 @@ OUTER = [
 ]
 
 POLL = [
+    'self.g_views_valid',
     # the set of fronts only grows by visited paths; unvisited entries are untouched
     "forall(lambda p: implies(has(self.front, p), has(self.process_paths, p)))",
     "forall(lambda p: implies(p in _done, has(self.front, p)))",
@@ -104,9 +106,9 @@ FLUSH = [
     # what has been collected: pending entries that were due, each a distinct, applicable token
     "forall_range(0, len(updates), lambda i: is_alt(updates[i], 'pending') and allocated(%s) and "
     "(%s.g_path in _done) and has(entry(self.front), %s.g_path) and %s == updates[i] and %s <= self.global_time and "
-    "((%s.g_empty and not %s.g_issued) or (%s.g_issued and (not %s.g_consumed) and %s.g_due == self.global_time)))"
+    "((%s.g_empty and not %s.g_issued) or (%s.g_live and %s.g_issued and (not %s.g_consumed) and %s.g_due == self.global_time)))"
     % (UTOK % 'i', UTOK % 'i', UTOK % 'i', ENTRY_UPD % (UTOK % 'i' + '.g_path'), ENTRY_TIME % (UTOK % 'i' + '.g_path'),
-       UTOK % 'i', UTOK % 'i', UTOK % 'i', UTOK % 'i', UTOK % 'i'),
+       UTOK % 'i', UTOK % 'i', UTOK % 'i', UTOK % 'i', UTOK % 'i', UTOK % 'i'),
     "forall_range(0, len(updates), lambda i: forall_range(0, i, lambda j: %s.g_path != %s.g_path))" % (UTOK % 'i', UTOK % 'j'),
 ]
 
@@ -118,13 +120,14 @@ contract(E + 'Engine.run_for', props=['C01', 'C02', 'C03', 'C04', 'C12'],
                 'update': 'Tup[Ref[Defer],Ref[Store]]', 'updates': 'Seq[Upd]', 'paths': 'Seq[Path]', 'new_update': 'Upd',
                 'quiet': 'Path', 'path': 'Path', 'process': 'Ref[Process]', 'advance': 'Front',
                 'p': 'Path', 'd': 'Ref[Defer]', 'i': 'Int', 'j': 'Int', 'g_qidx': 'Map[Path,Int]'},
-         requires=['interval > 0', NO_PENDING, LEDGER, EMITS_SORTED, EMITS_PAST],
+         requires=['interval > 0', 'self.g_views_valid', NO_PENDING, LEDGER, EMITS_SORTED, EMITS_PAST],
          modifies=['self.global_time', 'self.front', 'self.process_paths', 'self._step_paths', 'self.g_version',
-                   'self.g_steps_run', 'self.g_emits', 'Store.topology_view', 'Process.g_pending', 'Defer.defer', 'Defer.args',
+                   'self.g_steps_run', 'self.g_emits', 'self.g_views_valid', 'Defer.g_live', 'Store.topology_view', 'Process.g_pending', 'Defer.defer', 'Defer.args',
                    'Defer.g_empty', 'Defer.g_issued', 'Defer.g_consumed', 'Defer.g_path', 'Defer.g_dt', 'Defer.g_start',
                    'Defer.g_due', 'Defer.g_at'],
          alloc=True,
-         ensures=['self.global_time == old(self.global_time) + interval',            # C03: lands exactly on the end
+         ensures=['self.g_views_valid',                                               # C07: views current at every invocation
+                  'self.global_time == old(self.global_time) + interval',            # C03: lands exactly on the end
                   NO_PENDING,                                                          # nothing crosses a call boundary
                   LEDGER,                                                              # C01: applied at the due time
                   EMITS_SORTED, EMITS_PAST,                                            # C12/C03: strictly increasing rows
@@ -149,8 +152,25 @@ contract(E + 'Engine.run_for', props=['C01', 'C02', 'C03', 'C04', 'C12'],
                  "current global time')"]},
              "self.front[path]['update'] = update": {
                  'before': ["assert not (%s and not %s.g_empty)" % (PEND('path'), TOK('path'))],   # C01: never overwritten
-                 'after': ['update[0].g_start = process_time', 'update[0].g_due = future',
+                 'after': ['update[0].g_issued = True', 'update[0].g_start = process_time', 'update[0].g_due = future',
                            'assert update[0].g_dt == future - process_time']},             # C02: timestep == interval
              "self.front[path]['update'] = (EmptyDefer(), store)": {
                  'after': ["%s.g_path = path" % TOK('path')]},
          })
+
+from pyvc.spec import external
+external('clock:time', params=[], types={'ret': 'Real'}, why_trusted='wall clock, irrelevant to the modelled state')
+
+contract(E + 'Engine.update', props=['C02', 'C01', 'C03'],
+         instances=[{'name': 'no-precision', 'requires': ['is_none(self.global_time_precision)']}],
+         types={'interval': 'Real', 'clock_start': 'Real', 'runtime': 'Real', 'p': 'Path', 'd': 'Ref[Defer]', 'i': 'Int'},
+         requires=['interval > 0', 'self.g_views_valid', NO_PENDING, LEDGER, EMITS_SORTED, EMITS_PAST],
+         modifies=['self.global_time', 'self.front', 'self.process_paths', 'self._step_paths', 'self.g_version',
+                   'self.g_steps_run', 'self.g_emits', 'self.g_views_valid', 'Defer.g_live', 'Store.topology_view',
+                   'Process.g_pending', 'Defer.defer', 'Defer.args', 'Defer.g_empty', 'Defer.g_issued', 'Defer.g_consumed',
+                   'Defer.g_path', 'Defer.g_dt', 'Defer.g_start', 'Defer.g_due', 'Defer.g_at'],
+         alloc=True,
+         ensures=['self.global_time == old(self.global_time) + interval', NO_PENDING, LEDGER,
+                  "forall(lambda p: implies(has(self.front, p), %s == self.global_time))" % TIME('p')],
+         note='update() = run_for(force_complete=True) followed by _check_complete: the postcondition of run_for implies '
+              'the precondition of _check_complete, i.e. its two run-time assertions can never fire')
